@@ -25,7 +25,7 @@ class MicroMatrices(probe.Contract):
         c = core.ctx()
         op = trains.operator
         sol = trains.solution
-        if list(op.row_dims) != list(op.col_dims) or int(np.prod(op.row_dims)) > 512:
+        if list(op.row_dims) != list(op.col_dims) or int(np.prod(op.row_dims)) > 700:
             return
         cores = list(sol.cores)
         if any(getattr(x, 'ndim', 0) != 4 for k, x in enumerate(cores) if k != i):
@@ -77,7 +77,7 @@ class EvpAls(ApiImmut):
         v.update(kwargs)
         c = core.ctx()
         op, Bop = v['operator'], v['operator_gevp']
-        if list(op.row_dims) != list(op.col_dims) or int(np.prod(op.row_dims)) > 512:
+        if list(op.row_dims) != list(op.col_dims) or int(np.prod(op.row_dims)) > 700:
             return
         try:
             lam, xs, its = res
@@ -139,7 +139,7 @@ class PowerMethod(ApiImmut):
         v.update(kwargs)
         c = core.ctx()
         op, Bop = v['operator'], v['operator_gevp']
-        if int(np.prod(op.row_dims)) > 512:
+        if int(np.prod(op.row_dims)) > 700:
             return
         lam, x = res
         if not (_is_tt(x) and tt_consistent(x)[0]):
